@@ -143,7 +143,7 @@ func checkC16(c *Ctx) {
 	}
 
 	// ---- R4 json tags
-	checkJSONTags(c, pk)
+	checkJSONTags(c, "C16.R4.json-tags", pk)
 
 	// ---- R5 package identity
 	checkPackageIdentity(c, "C16.R5.package-identity", pk)
@@ -253,8 +253,7 @@ func nodeText(pk *packages.Package, n ast.Node) string {
 	return b.String()
 }
 
-func checkJSONTags(c *Ctx, pk *packages.Package) {
-	rule := "C16.R4.json-tags"
+func checkJSONTags(c *Ctx, rule string, pk *packages.Package) {
 	c.Rule(rule, "json tag handling: option scan starts after the name; '-' ignores; ',string' kinds = encoding/json's; unexported fields skipped; embedded fields not filtered on their own export status", 5)
 	info := pk.TypesInfo
 	// tagOptions.Contain: iteration must not include element 0
